@@ -26,6 +26,9 @@ type Store struct {
 	// RefusePct: a view's PreCommit refuses the section (ErrCriticalSectionAborted) with this probability, as a
 	// deployed resource may (a connection that died after the write): the section must then leave no trace.
 	RefusePct int
+	// RefuseWritePct: a write through a view is refused (ErrCriticalSectionAborted, nothing changes) with this
+	// probability, as a deployed mailbox does when it cannot reach the destination: the section must abort and retry.
+	RefuseWritePct int
 }
 
 func NewStore() *Store {
@@ -238,6 +241,9 @@ func (v *view) WriteValue(_ distsys.ArchetypeInterface, val tla.Value) error {
 	}
 	if len(v.path) != v.depth {
 		panic("specenv: write to " + v.what() + " at the wrong depth")
+	}
+	if v.s.RefuseWritePct > 0 && v.s.Pick != nil && v.s.Pick("write-refused", 100) < v.s.RefuseWritePct {
+		return distsys.ErrCriticalSectionAborted
 	}
 	v.s.Touched[v.name] = true
 	x, err := tlx.FromTLA(val.StripVClock())
